@@ -498,7 +498,7 @@ func TestC16(t *testing.T) {
 		ev.Eval(c.Path+"\x00"+c.Doc, true)
 		ev.Sample("keyvalue", c)
 		ev.Check(rt, "c16.keyvalue", c, checkKeyvalue(c))
-		if d, err := Decode(c.Doc, c.UseNumber); err == nil {
+		if _, err := Decode(c.Doc, c.UseNumber); err == nil {
 			ev.Check(rt, "c16.kvdistinct", c, checkKVDistinctCase(c))
 			for _, pre := range []string{"$[*]", "$", "$.a", "$.a[*]", "strict $.**"} {
 				kc := KVCase{Doc: c.Doc, Path: pre, UseNumber: c.UseNumber}
